@@ -229,6 +229,16 @@ def decide(h, workdir, solver, timeout, mem_gb, extra_flags):
                     "details": ["%s failed rc=%d: %s" % (c[0], rc, txt[-300:])], "wall_s": time.time() - t0,
                     "log": logf}
     unwind = h["attributes"].get("unwind_value") or 1
+    # B13: bound the recursion of io::Error's drop glue (Box<dyn Error> vtable) to 2; the recursion
+    # unwinding assertion stays on, so a reachable deeper recursion is reported, not hidden.
+    rc, _, txt = run(["goto-instrument", "--list-goto-functions", out], timeout=300)
+    uws = []
+    for line in txt.splitlines():
+        if line.startswith("std::ptr::drop_glue::<std::io::Error> /*"):
+            m = re.search(r"/\* (\S+?)[, ]", line + " ")
+            if m and "body not available" not in line:
+                uws.append(m.group(1) + ":2")
+    extra_flags = list(extra_flags) + (["--unwindset", ",".join(uws)] if uws else [])
     cmd = ["/usr/bin/time", "-f", "MAXRSS_KB=%M", "cbmc"] + CBMC_BASE + ["--unwind", str(unwind),
           "--sat-solver", solver] + list(extra_flags) + [out, "--verbosity", "8"]
     rc, dt, _ = run(cmd, timeout=timeout, out=logf, mem_gb=mem_gb)
